@@ -274,7 +274,7 @@ func checkC19(p *core.Program, r *core.Report) {
 		sites := flow.Analyse(mainUnit, flow.Config{
 			Select: func(call *ast.CallExpr, callee types.Object) bool {
 				fn, ok := callee.(*types.Func)
-				return ok && fn.Name() == "Run" && fn.Pkg() != nil && fn.Pkg().Path() == "github.com/urfave/cli/v2"
+				return ok && (fn.Name() == "Run" || fn.Name() == "RunContext") && fn.Pkg() != nil && fn.Pkg().Path() == "github.com/urfave/cli/v2"
 			},
 			Sink: func(call *ast.CallExpr, callee types.Object) bool {
 				return flow.NeverReturns(info, call) && exitCodeNonZero(info, call)
@@ -815,7 +815,7 @@ func checkLogSinks(p *core.Program, r *core.Report, ix *funcIndex, mainUnit flow
 					if fn.Pkg().Path() == "github.com/consensys/gnark/logger" && fn.Name() == "Set" {
 						setCall = call
 					}
-					if fn.Pkg().Path() == "github.com/urfave/cli/v2" && fn.Name() == "Run" {
+					if fn.Pkg().Path() == "github.com/urfave/cli/v2" && (fn.Name() == "Run" || fn.Name() == "RunContext") {
 						runCall = call
 					}
 				}
